@@ -32,6 +32,33 @@ class StubRouter:
         self.log.append((sender, message))
 
 
+class FakeStdin:
+    """What the TTY handler reads from: readline() hands over whatever chunk the harness fed ('' = end of input)."""
+
+    def __init__(self):
+        self.q = asyncio.Queue()
+
+    def feed(self, text):
+        self.q.put_nowait(text)
+
+    def feed_eof(self):
+        self.q.put_nowait("")
+
+    async def readline(self):
+        return await self.q.get()
+
+
+class FakeStdout:
+    def __init__(self):
+        self.chunks = []
+
+    async def write(self, data):
+        self.chunks.append(data)
+
+    async def flush(self):
+        pass
+
+
 class Result:
     def __init__(self, n):
         self.delivered = [[] for _ in range(n)]      # per connection: (feed step, view or exception)
@@ -50,46 +77,47 @@ async def _run(kind, streams, schedule, eof_order, for_blobs):
     readers, handlers, tasks = [], [], []
     step = [0]
     try:
-        if kind == "server-tcp":
-            from indi.transport.server.tcp import ConnectionHandler
-            router = StubRouter()
-            for i in range(n):
+        kinds = [kind] * n if isinstance(kind, str) else list(kind)
+        router = StubRouter()
+        inbox = [[] for _ in range(n)]
+        for i, k in enumerate(kinds):
+            if k == "server-tcp":
+                from indi.transport.server.tcp import ConnectionHandler
                 r = asyncio.StreamReader()
                 h = ConnectionHandler(r, FakeWriter(f"s{i}"), router)
-                readers.append(r)
-                handlers.append(h)
                 tasks.append(loop.create_task(h.wait_for_messages()))
+            elif k == "server-tty":
+                from indi.transport.server.tty import ConnectionHandler
+                r = FakeStdin()
+                h = ConnectionHandler(router, r, FakeStdout())
+                tasks.append(loop.create_task(h.wait_for_messages()))
+            else:
+                from indi.transport.client.tcp import ConnectionHandler
+                r = asyncio.StreamReader()
+                h = ConnectionHandler(r, FakeWriter(f"c{i}"), inbox[i].append, for_blobs=bool(for_blobs and for_blobs[i]))
+                tasks.append(loop.create_task(h.wait_for_messages()))
+            readers.append(r)
+            handlers.append(h)
 
-            def collect():
-                while router.log:
-                    sender, m = router.log.pop(0)
+        def collect():
+            while router.log:
+                sender, m = router.log.pop(0)
+                try:
+                    v = view_lib(m)
+                except Exception as e:
+                    v = ("unreadable", repr(e))
+                if sender in handlers:
+                    res.delivered[handlers.index(sender)].append((step[0], v))
+                else:
+                    res.foreign.append((step[0], v))
+            for i in range(n):
+                while inbox[i]:
+                    m = inbox[i].pop(0)
                     try:
                         v = view_lib(m)
                     except Exception as e:
                         v = ("unreadable", repr(e))
-                    if sender in handlers:
-                        res.delivered[handlers.index(sender)].append((step[0], v))
-                    else:
-                        res.foreign.append((step[0], v))
-        else:
-            from indi.transport.client.tcp import ConnectionHandler
-            inbox = [[] for _ in range(n)]
-            for i in range(n):
-                r = asyncio.StreamReader()
-                h = ConnectionHandler(r, FakeWriter(f"c{i}"), inbox[i].append, for_blobs=bool(for_blobs and for_blobs[i]))
-                readers.append(r)
-                handlers.append(h)
-                tasks.append(loop.create_task(h.wait_for_messages()))
-
-            def collect():
-                for i in range(n):
-                    while inbox[i]:
-                        m = inbox[i].pop(0)
-                        try:
-                            v = view_lib(m)
-                        except Exception as e:
-                            v = ("unreadable", repr(e))
-                        res.delivered[i].append((step[0], v))
+                    res.delivered[i].append((step[0], v))
 
         pos = [0] * n
         fed = [0] * n
@@ -101,7 +129,10 @@ async def _run(kind, streams, schedule, eof_order, for_blobs):
             pos[ci] += 1
             fed[ci] += len(piece)
             step[0] += 1
-            readers[ci].feed_data(piece.encode("latin1"))
+            if isinstance(readers[ci], FakeStdin):
+                readers[ci].feed(piece)
+            else:
+                readers[ci].feed_data(piece.encode("latin1"))
             for _ in range(3):
                 await asyncio.sleep(0)
             collect()
